@@ -626,6 +626,7 @@ pub fn run(ctx: &Ctx) -> PropResult {
         judge_from_datetime(rec, i, gen_offset(rng), idx % 2 == 1);
     }));
     wls.push(Workload::cases("api_walks", ctx.count(40_000, 1_500_000), |rec, _, rng| walk(rec, rng)));
+    wls.push(Workload::cases("offset_local_twins_time", ctx.count(4_000, 30_000), |rec, _, rng| super::localzone::twin_time_case(rec, rng, "C08", false)));
     let out = run_workloads(ctx, wls);
     let mut meta = PropMeta::default();
     meta.rule = format!(
@@ -635,6 +636,7 @@ pub fn run(ctx: &Ctx) -> PropResult {
     );
     meta.exhaustive = false;
     meta.required_bins = vec![
+        "local-twin/time-judged",
         "method/no-wrap", "method/wraps-once", "method/wraps-many", "count/64-bit-wrap-threshold", "count/u32::MAX-0..2",
         "binop/below-midnight", "binop/past-midnight", "binop/inside-day",
         "durop/below-midnight", "durop/past-midnight", "dur/>2^64-ns", "dur/=24h", "dur/to-midnight±1ns",
